@@ -25,6 +25,9 @@ type Engine struct {
 	funcs     map[string]*ssa.Function // contractKey -> function
 	globalIDs map[*ssa.Global]int64
 	typeIDs   map[string]int64
+	funcIDNames map[string]int64
+	strIDNames  map[string]int64
+	strNames    []string
 	strLits   map[string]int
 	strList   []string
 	funcIDs   map[*ssa.Function]int64
@@ -35,6 +38,7 @@ type Engine struct {
 	tier      string
 	ghosts    map[string]GhostDecl
 	assumedUsed map[string]bool
+	allFns      map[*ssa.Function]bool
 	frozenIDs   map[string]bool // printed literal of frozen global object ids
 	pureMemo    map[*ssa.Function]int
 	allocTypes  map[string]types.Type
@@ -168,7 +172,7 @@ func (e *Engine) typeID(t types.Type) int64 {
 	if id, ok := e.typeIDs[k]; ok {
 		return id
 	}
-	id := int64(len(e.typeIDs) + 1)
+	id := e.stableID(k, e.typeIDs)
 	e.typeIDs[k] = id
 	return id
 }
@@ -179,15 +183,25 @@ func (e *Engine) strLit(s string) Term {
 		id = len(e.strList)
 		e.strLits[s] = id
 		e.strList = append(e.strList, s)
+		if e.strIDNames == nil {
+			e.strIDNames = map[string]int64{}
+		}
+		h := e.stableID("str "+s, e.strIDNames)
+		e.strIDNames["str "+s] = h
+		e.strNames = append(e.strNames, fmt.Sprintf("strlit%d", h))
 	}
-	return Term{fmt.Sprintf("strlit%d", id), SStr}
+	return Term{e.strNames[id], SStr}
 }
 
 func (e *Engine) funcID(fn *ssa.Function) int64 {
 	if id, ok := e.funcIDs[fn]; ok {
 		return id
 	}
-	id := int64(len(e.funcIDs) + 1000)
+	if e.funcIDNames == nil {
+		e.funcIDNames = map[string]int64{}
+	}
+	id := e.stableID("func "+fn.String(), e.funcIDNames)
+	e.funcIDNames["func "+fn.String()] = id
 	e.funcIDs[fn] = id
 	return id
 }
